@@ -236,7 +236,8 @@ def k_grids(run, seed, tier, pool):
             exp = fx.k1_expected(cell)
             k1_in += exp
             k1_out += (not exp)
-            if got != "OTHER" and (got == "flagged") != exp:
+            flagged_k1 = v.startswith("known:") and "K1" in det["families"]     # the host may also hold a K2 instance of its own
+            if got != "OTHER" and flagged_k1 != exp:
                 found |= run.violation("K1-boundary-differs", {"name": name, "src": src, "constant": cell, "expected_flagged": exp, "observed": got})
     show = ("0xb3ba", "0XBB98Bl", "0xb1", "0xb1f", "0xb1l", "0xb0u", "0xab1", "0x0b1", "0xbb", "0xba", "0xBb1", "0xbB9f")
     t4 = T["K4"]
